@@ -155,6 +155,14 @@ impl<R> PMTiles<R> {
     }
 }
 
+#[cfg(feature = "verif")]
+impl<R> PMTiles<R> {
+    /// Read-only snapshot of the builder's internal store (verification hook, feature `verif`).
+    pub fn verif_store_report(&self) -> crate::VerifStoreReport {
+        self.tile_manager.verif_store_report()
+    }
+}
+
 impl<R: Read + Seek> PMTiles<R> {
     /// Get data of a tile by its id.
     ///
